@@ -12,6 +12,7 @@ new)
   git -C /repo worktree add --detach -q "$wt" HEAD
   git -C /repo diff | (cd "$wt" && git apply --allow-empty -) || true
   for f in $(git -C /repo ls-files --others --exclude-standard); do mkdir -p "$wt/$(dirname $f)"; cp "/repo/$f" "$wt/$f"; done
+  (cd "$wt" && git add -A && git -c user.email=v@v -c user.name=v commit -q -m wip --allow-empty) || true
   sed "s#=> /repo#=> $wt#" /verif/harness/go.mod > $wt.mod
   cat /repo/go.sum /verif/harness/go.sum.extra > $wt.sum
   echo "created $wt (edit files there), run: wt.sh test $name ./<pkg>/ -run '^TestCNN\$' -count=1 -timeout 300s"
